@@ -809,6 +809,15 @@ func (vc *VC) evalCall(env *Env, t CCall) Term {
 			ref = "(sl.base " + x.S + ")"
 		}
 		return tBool(fmt.Sprintf("(and (>= %s %s) (= (refkind %s) 0) (= (rootof %s) %s))", ref, oa.S, ref, ref, ref))
+	case "atlabel":
+		// atlabel(L, e): e evaluated in the state recorded by `label L at call ...` (must dominate this point)
+		id, ok := t.Args[0].(CIdent)
+		if !ok || env.fr == nil || env.fr.labels == nil || env.fr.labels[id.Name] == nil {
+			vc.unsup("atlabel(): unknown or not yet reached label")
+		}
+		n := *env
+		n.cur = env.fr.labels[id.Name]
+		return vc.evalTerm(&n, t.Args[1])
 	case "pre":
 		// pre(e): e evaluated in the state in which the current loop was entered
 		li := vc.curLoop(env)
@@ -948,9 +957,23 @@ func (vc *VC) evalCall(env *Env, t CCall) Term {
 		return tInt(fmt.Sprint(vc.eng.typeTag(tt)))
 	}
 	// contract macro (package-level `define`)
-	if m := vc.eng.macro(env, t.Fn); m != nil {
+	if m, mpkg := vc.eng.macro(env, t.Fn); m != nil {
 		if len(m.Params) != len(t.Args) {
 			vc.unsup("macro %s expects %d args", t.Fn, len(m.Params))
+		}
+		if mpkg != nil && mpkg != env.typesPkg() {
+			// macro of another package: arguments are evaluated here (by value) and the body is
+			// evaluated in the defining package's scope
+			n := *env
+			n.vars = map[string]Term{}
+			for i, p := range m.Params {
+				n.vars[p] = vc.evalTerm(env, t.Args[i])
+			}
+			n.pkg = vc.eng.prog.Package(mpkg)
+			n.tpkg = mpkg
+			n.fr = nil
+			n.oldVars = nil
+			return vc.evalTerm(&n, m.Body)
 		}
 		sub := map[string]CExpr{}
 		for i, p := range m.Params {
@@ -1048,11 +1071,11 @@ func (vc *VC) seqEq(env *Env, a, b Term) string {
 
 var _ = constant.MakeBool
 
-func (e *Engine) macro(env *Env, name string) *Macro {
+func (e *Engine) macro(env *Env, name string) (*Macro, *types.Package) {
 	if tp := env.typesPkg(); tp != nil {
 		if ps, ok := e.specs[tp.Path()]; ok {
 			if m, ok := ps.Macros[name]; ok {
-				return m
+				return m, tp
 			}
 		}
 	}
@@ -1060,15 +1083,15 @@ func (e *Engine) macro(env *Env, name string) *Macro {
 		if tp := env.lookupPkg(name[:i]); tp != nil {
 			if ps, ok := e.specs[tp.Path()]; ok {
 				if m, ok := ps.Macros[name[i+1:]]; ok {
-					return m
+					return m, tp
 				}
 			}
 		}
 	}
 	if m, ok := e.trusted.Macros[name]; ok {
-		return m
+		return m, nil
 	}
-	return nil
+	return nil, nil
 }
 
 func substCExpr(e CExpr, sub map[string]CExpr) CExpr {
